@@ -322,6 +322,22 @@ func (m *AuditLogMiddleware) DeleteBucketLifecycleConfiguration(ctx context.Cont
 	})
 }
 
+func (m *AuditLogMiddleware) GetBucketNotificationConfiguration(ctx context.Context, bucketName storage.BucketName) (*storage.BucketNotificationConfiguration, error) {
+	var result *storage.BucketNotificationConfiguration
+	err := m.run(ctx, auditlog.OpGetBucketNotification, auditResource{bucket: bucketName.String()}, func(ctx context.Context) error {
+		var err error
+		result, err = m.Next.GetBucketNotificationConfiguration(ctx, bucketName)
+		return err
+	})
+	return result, err
+}
+
+func (m *AuditLogMiddleware) PutBucketNotificationConfiguration(ctx context.Context, bucketName storage.BucketName, config *storage.BucketNotificationConfiguration) error {
+	return m.run(ctx, auditlog.OpPutBucketNotification, auditResource{bucket: bucketName.String()}, func(ctx context.Context) error {
+		return m.Next.PutBucketNotificationConfiguration(ctx, bucketName, config)
+	})
+}
+
 func (m *AuditLogMiddleware) GetBucketVersioningConfiguration(ctx context.Context, bucketName storage.BucketName) (*storage.BucketVersioningConfiguration, error) {
 	var result *storage.BucketVersioningConfiguration
 	err := m.run(ctx, auditlog.OpGetBucketVersioning, auditResource{bucket: bucketName.String()}, func(ctx context.Context) error {
@@ -425,6 +441,34 @@ func (m *AuditLogMiddleware) DeleteObjects(ctx context.Context, bucketName stora
 		return err
 	})
 	return result, err
+}
+
+func (m *AuditLogMiddleware) GetObjectTagging(ctx context.Context, bucketName storage.BucketName, key storage.ObjectKey, opts *storage.ObjectTaggingOptions) (map[string]string, error) {
+	var result map[string]string
+	err := m.run(ctx, auditlog.OpGetObjectTagging, auditResource{bucket: bucketName.String(), key: key.String()}, func(ctx context.Context) error {
+		var err error
+		result, err = m.Next.GetObjectTagging(ctx, bucketName, key, opts)
+		return err
+	})
+	return result, err
+}
+
+func (m *AuditLogMiddleware) PutObjectTagging(ctx context.Context, bucketName storage.BucketName, key storage.ObjectKey, tags map[string]string, opts *storage.ObjectTaggingOptions) error {
+	return m.run(ctx, auditlog.OpPutObjectTagging, auditResource{bucket: bucketName.String(), key: key.String()}, func(ctx context.Context) error {
+		return m.Next.PutObjectTagging(ctx, bucketName, key, tags, opts)
+	})
+}
+
+func (m *AuditLogMiddleware) DeleteObjectTagging(ctx context.Context, bucketName storage.BucketName, key storage.ObjectKey, opts *storage.ObjectTaggingOptions) error {
+	return m.run(ctx, auditlog.OpDeleteObjectTagging, auditResource{bucket: bucketName.String(), key: key.String()}, func(ctx context.Context) error {
+		return m.Next.DeleteObjectTagging(ctx, bucketName, key, opts)
+	})
+}
+
+func (m *AuditLogMiddleware) TransitionObjectStorageClass(ctx context.Context, bucketName storage.BucketName, key storage.ObjectKey, targetStorageClass string, opts *storage.TransitionObjectStorageClassOptions) error {
+	return m.run(ctx, auditlog.OpTransitionObjectStorageClass, auditResource{bucket: bucketName.String(), key: key.String()}, func(ctx context.Context) error {
+		return m.Next.TransitionObjectStorageClass(ctx, bucketName, key, targetStorageClass, opts)
+	})
 }
 
 func (m *AuditLogMiddleware) CreateMultipartUpload(ctx context.Context, bucketName storage.BucketName, key storage.ObjectKey, contentType *string, checksumType *string, opts *storage.CreateMultipartUploadOptions) (*storage.InitiateMultipartUploadResult, error) {
